@@ -6,10 +6,10 @@ from ..engine import Finding
 
 ID = 'C18'
 TITLE = 'decorators are transparent: same results, same signature, no double wrapping'
-LEAN_FILES = ['Basic', 'Bind', 'Cache', 'Wrap', 'BindDriver', 'Cmp', 'BindLemmas', 'CacheLemmas', 'CacheKeyLemmas', 'WrapLemmas', 'ResDec', 'C18']
+LEAN_FILES = ['Basic', 'Bind', 'Cache', 'Wrap', 'WrapHist', 'Try', 'BindDriver', 'Cmp', 'BindLemmas', 'CacheLemmas', 'CacheKeyLemmas', 'WrapLemmas', 'WrapHistLemmas', 'ResDec', 'C18']
 RULE = ('distinct protocol lines on which the implementation returned a value: a (signature, call) pair bound / called / '
         'round-tripped, a (signature, decorator stack, call) triple, a construction sequence of wrappers, or a cache history '
-        'with at least two calls; calls without any argument on a parameterless function are not counted')
+        '(on a cached function or through a decorator stack) with at least two calls; calls without any argument on a parameterless function are not counted')
 TRUSTED = ['correspondence harness (pv.engine, pv.proto) and generators of pv.props.c18',
            'Lean driver parser/printer (PygModel/Basic.lean, BindDriver.lean)',
            'inspect.getcallargs as the oracle of python binding in the laws']
@@ -256,7 +256,8 @@ def mark(v):
     if isinstance(v, (set, frozenset)):
         return '~set:' + ','.join(str(int(x)) for x in sorted(v))
     if isinstance(v, np.ndarray):
-        return '~arr:' + ','.join(str(int(x)) for x in v)
+        # `~arr:1,2` an int array, `~arr:f:1,2` the float array with the same cells (what pd2np's _int2float makes of it)
+        return ('~arr:f:' if v.dtype.kind == 'f' else '~arr:') + ','.join(str(int(x)) for x in v)
     if isinstance(v, list):
         return [mark(x) for x in v]
     if isinstance(v, tuple):
@@ -271,8 +272,10 @@ def unmark(v, rng=None):
     if isinstance(v, str) and v.startswith('~set:'):
         xs = [int(x) for x in v[5:].split(',') if x]
         return set(reversed(xs))
+    if isinstance(v, str) and v.startswith('~arr:f:'):
+        return np.array([float(x) for x in v[7:].split(',') if x], dtype=float)
     if isinstance(v, str) and v.startswith('~arr:'):
-        return np.array([int(x) for x in v[5:].split(',') if x])
+        return np.array([int(x) for x in v[5:].split(',') if x], dtype=np.int64)
     if isinstance(v, list):
         return [unmark(x) for x in v]
     if isinstance(v, tuple):
@@ -327,6 +330,64 @@ def gen_cache(rng, raising=False, unhashable=False):
         hist.append((list(a), dict(k)))
     line = '(deco cache %s %s)' % (sig_enc(sig), '(L' + ''.join(' (T %s %s)' % (enc(a), enc(k)) for a, k in hist) + ')')
     return dict(tag='cache history len=%d%s%s' % (len(hist), ' raising' if raising else '', ' set/ndarray arguments' if unhashable else ''), lines=[line])
+
+
+def gen_stackhist(rng):
+    """a history of calls through a decorator stack that (mostly) contains a cache layer: replies and the number of executions
+    of f after every call.  == twins, positional-vs-keyword variants (loops above the cache merges them), raising and invalid
+    calls (try_value with repeat re-runs the layers below; the cache re-evaluates a raising function), undeclared keywords,
+    int / float ndarray arguments (pd2np converts, the cache does not store)"""
+    sig = rng.choice([(['a'], [], None, None), (['a', 'b'], [DEFAULTS[0]], None, None), (['a', 'b'], [DEFAULTS[0]], 'args', 'kw'),
+                      (['a'], [DEFAULTS[0]], None, 'kw'), (['a', 'b', 'c'], [DEFAULTS[0], DEFAULTS[1]], None, None),
+                      (['a', 'axis'], [0], None, None)])
+    params, defaults, va, vk = sig
+    others = [c for c in CLASSES if c != 'cache_func']
+    classes = rng.sample(others, rng.choice([0, 1, 1, 2, 2, 3]))
+    with_cache = rng.random() < 0.9
+    if with_cache:
+        classes.append('cache_func')
+    if rng.random() < 0.15 and classes:
+        classes.append(rng.choice(classes))        # the same class again: the constructor cuts the earlier one out
+    rng.shuffle(classes)
+    if not classes:
+        classes = ['cache_func']
+    ds = [(c, deco_params(rng, c)) for c in classes]
+    arrays = 'loops' not in classes and rng.random() < 0.3          # loops on an ndarray argument is C19
+    calls = [(a, k) for a, k in valid_calls(sig) if a or k]
+    pool = []
+    for _ in range(rng.choice([1, 2, 3])):
+        a, k = rng.choice(calls)
+        val = lambda: (rng.choice(['~arr:1,2', '~arr:f:1,2', '~arr:3']) if arrays and rng.random() < 0.4 else rng.choice([0, 1, 2, 2.5, True, 'x', None, -3]))
+        pool.append(([val() for _ in a], {n: val() for n in k}))
+    hist = []
+    kinds = set()
+    for _ in range(rng.choice([2, 3, 5, 8])):
+        a, k = rng.choice(pool)
+        a, k = list(a), dict(k)
+        r = rng.random()
+        if r < 0.2:
+            a = [float(x) if isinstance(x, int) and not isinstance(x, bool) and rng.random() < 0.6 else x for x in a]
+            kinds.add('twin')
+        elif r < 0.4 and a and params and len(a) <= len(params) and params[len(a) - 1] not in k:
+            k = dict(k, **{params[len(a) - 1]: a[-1]})
+            a = a[:-1]
+            kinds.add('by-keyword')
+        elif r < 0.5 and (a or k):
+            if a:
+                a[rng.randrange(len(a))] = rng.choice(['!v', '!k', '!t'])
+            else:
+                k[rng.choice(sorted(k))] = '!v'
+            kinds.add('raising')
+        elif r < 0.56:
+            k = dict(k, zz=1)
+            kinds.add('undeclared-kw')
+        elif r < 0.6 and a:
+            a = a[:-1] if len(a) <= len(params) - len(defaults) else a
+            kinds.add('maybe-invalid')
+        hist.append((a, k))
+    line = '(deco stackhist %s %s %s)' % (sig_enc(sig), decos_enc(ds), '(L' + ''.join(' (T %s %s)' % (enc(a), enc(k)) for a, k in hist) + ')')
+    return dict(tag='stack history %s len=%d%s%s' % ('with cache' if with_cache else 'without cache', len(hist),
+                                                    ' ndarray arguments' if arrays else '', ' raising' if 'raising' in kinds else ''), lines=[line])
 
 
 def generate(rng, tier):
@@ -394,6 +455,8 @@ def generate(rng, tier):
         yield gen_cache(rng, raising=True)
     for _ in range(150 if q else 4000):
         yield gen_cache(rng, raising=rng.random() < 0.2, unhashable=True)
+    for _ in range(600 if q else 12000):
+        yield gen_stackhist(rng)
 
 
 # ---------------------------------------------------------------- implementation runner
@@ -456,6 +519,18 @@ def run_line(state, sx):
                 r = b if has_arr((wa, wk)) else first_none.setdefault(ref_key(wa, wk), b)
             out.append((r, Counter.n))
         return 'ok ' + enc(out)
+    if op == 'stackhist':
+        g = f
+        for cls, params in decos_dec(a[1]):
+            g = construct(cls, params, g)
+        Counter.n = 0
+        out = []
+        for call in a[2][1:]:
+            wa, wk = proto.dec(call[1]), proto.dec(call[2])
+            args, kw = unmark(wa), unmark(wk)
+            r = mark(res_val(lambda: g(*args, **kw)))
+            out.append((r, Counter.n))
+        return 'ok ' + enc(out)
     if op == 'stack':
         g = f
         for cls, params in decos_dec(a[1]):
@@ -496,6 +571,24 @@ def compare(case, i, line, ir, mr):
         return ('divergence', 'invalid call (the property is about valid calls): implementation %s, model %s' % (ir, mr))
     if op == 'bindref':
         return 'inspect.getcallargs gives %s, the reference binder of the model %s (model assumption wrong)' % (ir, mr)
+    if op == 'stackhist' and ir.startswith('ok ') and mr.startswith('ok '):
+        # the property pins the number of executions for a NON-RAISING f only: when all replies agree and the execution counts
+        # part only from the first raising / invalid call onwards (how often try_value / the cache's except path re-run a failing
+        # function), the model and the code differ in something the statement does not fix
+        try:
+            iv, mv = proto.dec(proto.parse(ir[3:])), proto.dec(proto.parse(mr[3:]))
+            calls = proto.parse(line)[4][1:]
+            if len(iv) == len(mv) == len(calls) and all(enc(x[0]) == enc(y[0]) for x, y in zip(iv, mv)):
+                j = next(k for k, (x, y) in enumerate(zip(iv, mv)) if x[1] != y[1])
+
+                def failing(k):
+                    a, kw = proto.dec(calls[k][1]), proto.dec(calls[k][2])
+                    f = make_fn(sig_dec(proto.parse(line)[2]))
+                    return isinstance(res_val(lambda: f(*unmark(a), **unmark(kw))), tuple)
+                if any(failing(k) for k in range(j + 1)):
+                    return ('divergence', 'executions of a raising function differ (not pinned by the property): implementation %s, model %s' % (ir, mr))
+        except Exception:
+            pass
     return 'implementation %s, model %s' % (ir, mr)
 
 
@@ -507,6 +600,8 @@ def nontrivial(line, reply):
         return len(sx[2]) > 2
     if sx[1] == 'cache':
         return len(sx[3]) > 2
+    if sx[1] == 'stackhist':
+        return len(sx[4]) > 2
     return len(sx[-2]) > 1 or len(sx[-1]) > 1
 
 
